@@ -27,11 +27,11 @@ def _delta(seq):
     return call(lambda: fnum(SP(seq).get_delta()))
 
 
-def sequences(ctx, nmax_q=8, nmax_t=10):
+def sequences(ctx, nmax_q=8, nmax_t=10, lmax_t=400):
     rng = ctx.rng
     seqs = [gen_seq.spell(rng, p) for p in gen_seq.patterns_upto(ctx.pick(nmax_q, nmax_t))]
     seqs += list(AAS)
-    seqs += gen_seq.random_classes(rng, ctx.pick(300, 1500), 1, ctx.pick(80, 400))
+    seqs += gen_seq.random_classes(rng, ctx.pick(300, 1500), 1, ctx.pick(80, lmax_t))
     seqs += gen_seq.homopolymers(rng)
     return seqs
 
